@@ -1,6 +1,7 @@
 package main
 
 import (
+	"fmt"
 	"go/constant"
 	"go/token"
 	"go/types"
@@ -24,44 +25,29 @@ func instrIndex(in ssa.Instruction) int {
 	return -1
 }
 
-// search explores forward from the given start points (block, index) and
-// returns the first instruction satisfying target that is reachable without
-// passing through an instruction satisfying avoid (avoid is tested before
-// target; an instruction that is both is treated as avoided).
-// edgeOK, when non-nil, can veto following a CFG edge (branch correlation).
+// The search helpers below are interprocedural: they follow synchronous static
+// calls into tree functions (see ip.go). avoid is tested before target; an
+// instruction that is both is treated as avoided. edgeOK, when non-nil, can veto
+// following a CFG edge (branch correlation).
+
+// searcher is kept as a thin compatibility wrapper around ipSearch.
 type searcher struct {
 	avoid  ipred
 	target ipred
 	edgeOK func(from *ssa.BasicBlock, succIdx int) bool
 	seen   map[*ssa.BasicBlock]bool
-	path   []*ssa.BasicBlock
 	found  ssa.Instruction
 }
 
 func (s *searcher) scan(b *ssa.BasicBlock, from int) bool {
-	for i := from; i < len(b.Instrs); i++ {
-		in := b.Instrs[i]
-		if s.avoid != nil && s.avoid(in) {
-			return false
-		}
-		if s.target != nil && s.target(in) {
-			s.found = in
-			return true
-		}
+	ip := newIPSearch(s.target, s.avoid)
+	ip.edgeOK = s.edgeOK
+	for blk := range s.seen {
+		ip.seen[fmt.Sprintf("%p|", blk)] = true
 	}
-	for k, succ := range b.Succs {
-		if s.edgeOK != nil && !s.edgeOK(b, k) {
-			continue
-		}
-		if s.seen[succ] {
-			continue
-		}
-		s.seen[succ] = true
-		s.path = append(s.path, succ)
-		if s.scan(succ, 0) {
-			return true
-		}
-		s.path = s.path[:len(s.path)-1]
+	if ip.scan(b, from, nil) {
+		s.found = ip.found
+		return true
 	}
 	return false
 }
@@ -69,10 +55,19 @@ func (s *searcher) scan(b *ssa.BasicBlock, from int) bool {
 // reachFrom: is some target reachable strictly after instruction `from`
 // avoiding `avoid`? Returns the witness instruction (nil if none).
 func reachFrom(from ssa.Instruction, target, avoid ipred) ssa.Instruction {
-	s := &searcher{avoid: avoid, target: target, seen: map[*ssa.BasicBlock]bool{}}
-	b := from.Block()
-	// the starting block may be re-entered through a loop; do not mark it seen
-	if s.scan(b, instrIndex(from)+1) {
+	s := newIPSearch(target, avoid)
+	if s.scan(from.Block(), instrIndex(from)+1, nil) {
+		return s.found
+	}
+	return nil
+}
+
+// reachFromUp: like reachFrom, but when the function containing `from` returns,
+// the search continues after its synchronous call sites (until an activity root).
+func reachFromUp(from ssa.Instruction, target, avoid ipred) ssa.Instruction {
+	s := newIPSearch(target, avoid)
+	s.up = true
+	if s.scan(from.Block(), instrIndex(from)+1, nil) {
 		return s.found
 	}
 	return nil
@@ -83,8 +78,9 @@ func reachFromEntry(fn *ssa.Function, target, avoid ipred) ssa.Instruction {
 	if len(fn.Blocks) == 0 {
 		return nil
 	}
-	s := &searcher{avoid: avoid, target: target, seen: map[*ssa.BasicBlock]bool{fn.Blocks[0]: true}}
-	if s.scan(fn.Blocks[0], 0) {
+	s := newIPSearch(target, avoid)
+	s.seen[fmt.Sprintf("%p|", fn.Blocks[0])] = true
+	if s.scan(fn.Blocks[0], 0, nil) {
 		return s.found
 	}
 	return nil
@@ -92,8 +88,9 @@ func reachFromEntry(fn *ssa.Function, target, avoid ipred) ssa.Instruction {
 
 // reachFromBlock: search starting at the first instruction of block b.
 func reachFromBlock(b *ssa.BasicBlock, target, avoid ipred) ssa.Instruction {
-	s := &searcher{avoid: avoid, target: target, seen: map[*ssa.BasicBlock]bool{b: true}}
-	if s.scan(b, 0) {
+	s := newIPSearch(target, avoid)
+	s.seen[fmt.Sprintf("%p|", b)] = true
+	if s.scan(b, 0, nil) {
 		return s.found
 	}
 	return nil
@@ -101,23 +98,16 @@ func reachFromBlock(b *ssa.BasicBlock, target, avoid ipred) ssa.Instruction {
 
 func isReturn(in ssa.Instruction) bool { _, ok := in.(*ssa.Return); return ok }
 
-func isExit(in ssa.Instruction) bool {
-	switch in.(type) {
-	case *ssa.Return:
-		return true
-	}
-	return false
-}
-
-// mustPrecede: every path from fn's entry to `b` passes through an instruction in A.
+// mustPrecede: every path from fn's entry to `b` passes through an instruction in A
+// (A may lie inside a function called on the way).
 func mustPrecede(fn *ssa.Function, A ipred, b ssa.Instruction) bool {
 	return reachFromEntry(fn, func(in ssa.Instruction) bool { return in == b }, A) == nil
 }
 
-// mustFollow: every path from `a` to a function return passes through an instruction in B.
-// Returns the offending return if not.
+// mustFollow: every path from `a` to the end of the enclosing activity passes through an
+// instruction in B. Returns the offending return if not.
 func mustFollow(a ssa.Instruction, B ipred) ssa.Instruction {
-	return reachFrom(a, isReturn, B)
+	return reachFromUp(a, isReturn, B)
 }
 
 // inLoop reports whether the block is part of a CFG cycle.
